@@ -17,10 +17,11 @@ func init() { Scenarios["C06"] = scenarioC06 }
 const c06Version = "v2.0.0"
 
 type c06input struct {
-	Class string // VALID, INVALID, AMBIGUOUS
-	Kind  string
-	Bytes []byte
-	Tail  []byte // bytes following the handshake (VALID only): must reach the next layer intact
+	Class   string // VALID, INVALID, AMBIGUOUS
+	Kind    string
+	Bytes   []byte
+	Tail    []byte // bytes following the handshake (VALID only): must reach the next layer intact
+	SrvCert bool   // server role: the server has a certificate (it can offer StartTLS)
 }
 
 // ---- generators (server role: the bytes a client sends)
@@ -82,6 +83,16 @@ func genServerRoleInput(c *Chooser) c06input {
 	}
 	tail := make([]byte, 1+c.Pick(64, "tail-len"))
 	prfFill(0x7a11, 0, tail)
+	// a malformed upgrade may ask for StartTLS, of a server that has a certificate and could grant it to a
+	// well-formed one: the request for protection must not stand in for the rest of the request
+	withStartTLS := func(in c06input) c06input {
+		if c.Chance(1, 2, "asks-for-starttls") {
+			in.Bytes = []byte(strings.Replace(string(in.Bytes), "User-Agent:", "Security: StartTLS\r\nUser-Agent:", 1))
+			in.SrvCert = true
+			in.Kind += "+starttls"
+		}
+		return in
+	}
 	k := c.Pick(17, "input-kind")
 	switch k {
 	case 0, 1, 2:
@@ -121,13 +132,13 @@ func genServerRoleInput(c *Chooser) c06input {
 		return c06input{Class: "INVALID", Kind: "long-request-line-no-version", Bytes: []byte(line + "\r\n\r\n" + validU())}
 	case 7:
 		m := []string{"POST", "X-SOCKETACE", "get"}[c.Pick(3, "method")]
-		return c06input{Class: "INVALID", Kind: "wrong-upgrade-method", Bytes: []byte(validA() + genUpgrade(c, m, "upgrade", "socketace/"+c06Version))}
+		return withStartTLS(c06input{Class: "INVALID", Kind: "wrong-upgrade-method", Bytes: []byte(validA() + genUpgrade(c, m, "upgrade", "socketace/"+c06Version))})
 	case 8:
 		u := []string{"", "socketace/v1.0.0", "websocket", "socketace/", "socketace/" + c06Version + "x"}[c.Pick(5, "bad-upgrade")]
-		return c06input{Class: "INVALID", Kind: "wrong-upgrade-token", Bytes: []byte(validA() + genUpgrade(c, "GET", "upgrade", u))}
+		return withStartTLS(c06input{Class: "INVALID", Kind: "wrong-upgrade-token", Bytes: []byte(validA() + genUpgrade(c, "GET", "upgrade", u))})
 	case 9:
 		cn := []string{"", "keep-alive", "close", "upgrade2"}[c.Pick(4, "bad-conn")]
-		return c06input{Class: "INVALID", Kind: "wrong-connection-token", Bytes: []byte(validA() + genUpgrade(c, "GET", cn, "socketace/"+c06Version))}
+		return withStartTLS(c06input{Class: "INVALID", Kind: "wrong-connection-token", Bytes: []byte(validA() + genUpgrade(c, "GET", cn, "socketace/"+c06Version))})
 	case 10:
 		n := 1 + c.Pick(300, "noise-len")
 		b := make([]byte, n)
@@ -285,7 +296,12 @@ func runHandshake(r *Run, role string, in c06input, seg int, secure bool) c06out
 		var err error
 		if role == "server" {
 			var sc *socketace.ServerConnection
-			sc, err = socketace.NewServerConnection(b, &cert.ServerConfig{}, secure)
+			mgr := &cert.ServerConfig{}
+			if in.SrvCert {
+				kp := GetPKI().SrvGood
+				mgr.Certificate, mgr.PrivateKey = kp.CertPEM, kp.KeyPEM
+			}
+			sc, err = socketace.NewServerConnection(b, mgr, secure)
 			if sc != nil {
 				conn = sc
 			}
